@@ -98,7 +98,7 @@ def small_params(kind):
                 for n in (0, 1, 2, 3, 5) for (w, d) in ((2, 3), (0.5, 1.0), (1.5, 2.5), (3, 2), (1.0, 0.25))]   # (warning above drift is legal too)
     if kind == "EDDM":
         return [{"n_threshold": n, "warning_thresh": w, "drift_thresh": d}
-                for n in (0, 1, 2, 3) for (w, d) in ((0.95, 0.9), (0.99, 0.6), (0.8, 0.5), (0.6, 0.9))]
+                for n in (0, 1, 2, 3) for (w, d) in ((0.95, 0.9), (0.99, 0.6), (0.8, 0.5), (0.6, 0.9), (1.0, 0.9), (1.0, 1.0))]     # (a threshold of exactly 1: a new maximum itself is in the zone)
     if kind == "STEPD":
         return [{"window_size": n, "alpha_warning": w, "alpha_drift": d}
                 for n in (1, 2, 3) for (w, d) in ((0.05, 0.003), (0.4, 0.3), (0.3, 0.05), (0.05, 0.3), (0.7, 0.55))]
@@ -112,7 +112,7 @@ def random_params(kind, rng):
     if kind == "EDDM":
         d = rng.choice([0.5, 0.7, 0.8, 0.9, 0.9])
         return {"n_threshold": rng.choice([1, 3, 10, 30, 30]), "drift_thresh": d,
-                "warning_thresh": min(0.999, d + rng.choice([0.03, 0.05, 0.05, 0.09, -0.1]))}
+                "warning_thresh": rng.choice([1.0, min(0.999, d + rng.choice([0.03, 0.05, 0.05, 0.09, -0.1]))]) if rng.random() < 0.15 else min(0.999, d + rng.choice([0.03, 0.05, 0.05, 0.09, -0.1]))}
     if kind == "STEPD":
         d = rng.choice([0.001, 0.003, 0.003, 0.01, 0.05])
         if rng.random() < 0.2:      # significance levels above one half are legal: then every decrease of accuracy alarms, and ONLY a decrease
